@@ -292,6 +292,14 @@ func genRichCase(t *rapid.T) *BuildCase {
 		c.X.DebArch, c.X.RPMArch, c.X.APKArch, c.X.ArchArch, c.X.IPKArch = "", "", "", "", ""
 	}
 	c.Constraints = false // one configuration serves all formats in a history
+	// relation items with blanks (a spelling every format accepts)
+	for _, l := range []*[]string{&c.Meta.Depends, &c.Meta.Conflicts, &c.Meta.Provides, &c.Meta.Replaces} {
+		for i := range *l {
+			if rapid.IntRange(0, 2).Draw(t, "relblank") == 0 {
+				(*l)[i] += rapid.SampledFrom([]string{" >= 1.2", " < 2.0", " = 1.0-1"}).Draw(t, "relop")
+			}
+		}
+	}
 	for i := range c.Tree {
 		if c.Tree[i].Size > 6000 {
 			c.Tree[i].Size = c.Tree[i].Size % 6000 // histories repeat every build many times: keep payloads small
@@ -511,6 +519,29 @@ func TestC12(t *testing.T) {
 	if thorough() {
 		reps = 12
 	}
+	// systematic sweep: for every format and compressor a fleet of independent builds of that one kind
+	// (exposes state shared between builds of the same packager, e.g. pooled encoders)
+	caseGen := rapid.Custom(genRichCase)
+	sweep := []struct{ f, deb, rpm string }{
+		{"deb", "gzip", ""}, {"deb", "xz", ""}, {"deb", "zstd", ""}, {"deb", "none", ""},
+		{"rpm", "", "gzip"}, {"rpm", "", "xz"}, {"rpm", "", "lzma"}, {"rpm", "", "zstd"},
+		{"apk", "", ""}, {"archlinux", "", ""}, {"ipk", "", ""},
+	}
+	for i, sw := range sweep {
+		c := caseGen.Example(envInt("VERIF_SEED", 0)*100 + envInt("VERIF_SHARD", 0)*10 + i%3)
+		c.DebCompression, c.RPMCompression = sw.deb, sw.rpm
+		// payloads large enough to keep the compressors busy while the others run
+		c.Tree = append(c.Tree, FNode{Rel: "src/bulk", Kind: "file", Size: 300000, Seed: 7 + i, Mode: 0o644, MTime: 900000000})
+		c.Contents = append(c.Contents, Entry{Src: "src/bulk", Dst: "/opt/bulk/data", Form: "single"})
+		fc := &FleetCase{Case: c, Reps: reps}
+		for k := 0; k < 6; k++ {
+			fc.Workers = append(fc.Workers, sw.f)
+			fc.Spin = append(fc.Spin, []int{0, 0, 100, 10000, 0, 200000}[k])
+		}
+		st.Record(fc, true, "same-format-fleet", "sweep:"+sw.f+"/"+sw.deb+sw.rpm)
+		st.Report(t, fc, checkFleet(fc))
+	}
+	st.Exhaustive["same-format fleets: format x compressor"] = len(sweep)
 	rapid.Check(t, func(rt *rapid.T) {
 		c := genRichCase(rt)
 		fc := &FleetCase{Case: c, Shared: rapid.Bool().Draw(rt, "shared"), Reps: reps}
